@@ -932,7 +932,7 @@ func runPools(r *evid.Run) {
 				}
 				return sc
 			}
-			states := map[string]struct{}{}
+			states := sched.StateSet{}
 			ex := &sched.Explorer{Mk: mk, MaxBound: bound, Stop: r.Expired, States: states,
 				Check: func(x sched.Exec, _ *sched.Scenario) string {
 					out := fmt.Sprint(results)
